@@ -16,7 +16,16 @@ CONST_GENERIC_SRC = """
 """
 CONST_GENERIC_ENTRIES = [("Cg:matrix2", "CgMatrix<i32, 2>"), ("Cg:matrix3", "CgMatrix<i32, 3>"), ("Cg:matrix0", "CgMatrix<String, 0>"),
                          ("Cg:buf1", "CgBuf<1>"), ("Cg:buf34", "CgBuf<3, 4>"), ("Cg:choice1", "CgChoice<1>"), ("Cg:choice2", "CgChoice<2>"),
-                         ("Cg:holder", "CgHolder")]
+                         ("Cg:holder", "CgHolder"),
+                         # renders that fail (nothing to export): what such a call leaves behind must not reach the next one
+                         ("nx:vec", "Vec<CgHolder>"), ("nx:opt", "Option<CgBuf<1>>"), ("nx:prim", "i32"), ("nx:tuple", "(CgHolder, String)")]
+
+
+def crate_neutral(v):
+    """error texts carry std::any::type_name, which starts with the name of the package (det_0, det_1, ..)"""
+    import json
+    import re
+    return re.sub(r"\bdet_\d+::", "det::", json.dumps(v, sort_keys=True))
 
 
 def run(pid, tier, seed):
@@ -86,7 +95,7 @@ def run(pid, tier, seed):
                     if len(deps) >= 3:
                         chk.add_distinct((sidx, tid))
                     for field in ("name", "ident", "decl", "decl_concrete", "inline", "export_to_string", "dependencies", "output_path", "docs"):
-                        if e0.get(field) != e1.get(field):
+                        if crate_neutral(e0.get(field)) != crate_neutral(e1.get(field)):
                             chk.violation(f"C13|dump-differs|{field}", f"{e0['rust']}: {field} differs between two compilations of the same source: "
                                           f"{str(e0.get(field))[:300]} vs {str(e1.get(field))[:300]}",
                                           {"type": e0["rust"], "field": field, "a": e0.get(field), "b": e1.get(field)}, tags=[field])
